@@ -453,8 +453,9 @@ func (ex *Exec) checkAssert(c *Term, label string) {
 		st.Checked++
 		st.Failed++
 		ex.recordFailure(label, "ASSERT", "")
-		if ex.prop != "" && !labelHas(label, ex.prop) {
-			// an obligation of another property: reported there; this path goes on without assuming it
+		if ex.prop != "" && (!labelHas(label, ex.prop) || knownLabels[ex.res.Harness+"|"+label]) {
+			// an obligation of another property (reported there) or a listed known finding: this path goes on
+			// without assuming it
 			ex.otherFailed = true
 			ex.setSlot(8)
 			return
@@ -539,7 +540,7 @@ func (ex *Exec) checkOne(a pendingAssert) {
 		ex.res.Inconclusive("solver unknown on assertion " + label)
 	}
 	ex.solver.send("(pop 1)")
-	if r == "sat" && ex.prop != "" && !labelHas(label, ex.prop) {
+	if r == "sat" && ex.prop != "" && (!labelHas(label, ex.prop) || knownLabels[ex.res.Harness+"|"+label]) {
 		// an obligation of another property failed: do not assume it, so that it cannot mask an
 		// obligation of the property being checked further down this path
 		ex.otherFailed = true
